@@ -1,0 +1,33 @@
+//go:build verif
+
+// Contracts for package query: the endpoints of a date range query (read by /verif/gocv;
+// comment-only effect with the verif tag off).
+//
+// C07: a date range is searched as a numeric range over nanosecond time stamps. parseEndpoints
+// turns a non-zero start / end time into the float64 whose sortable integer code IS the time's
+// UnixNano value (so the numeric range machinery compares nanoseconds exactly), and a zero time
+// into the infinity of its side (open end).
+
+package query
+
+//@ assume func time.Time.IsZero(t)
+//@   pure
+//@ assume func time.Time.UnixNano(t)
+//@   pure
+//@ assume func time.Time.Before(t, u)
+//@   pure
+//@ assume func time.Time.After(t, u)
+//@   pure
+//@ assume func fmt.Errorf(format, a)
+//@   pure
+
+//@ func DateRangeQuery.parseEndpoints
+//@   props C07
+//@   mode bv
+//@   requires q != nil
+//@   ensures implies(result2 != nil, result0 == nil && result1 == nil)
+//@   ensures implies(result2 == nil, result0 != nil && result1 != nil)
+//@   ensures implies(result2 == nil && !q.Start.IsZero(), numeric.Float64ToInt64(*result0) == q.Start.UnixNano())
+//@   ensures implies(result2 == nil && q.Start.IsZero(), *result0 == math.Inf(-1))
+//@   ensures implies(result2 == nil && !q.End.IsZero(), numeric.Float64ToInt64(*result1) == q.End.UnixNano())
+//@   ensures implies(result2 == nil && q.End.IsZero(), *result1 == math.Inf(1))
